@@ -235,7 +235,7 @@ def rep_seq(I, kind, elem, n):
 
 
 def _is_sql(x):
-    return (type(x).__module__ or '').startswith('sqlalchemy')
+    return not isinstance(x, type) and (type(x).__module__ or '').startswith('sqlalchemy')
 
 
 def compare(I, op, a, b):
